@@ -48,6 +48,46 @@ pub fn read_all(fmt: &str, bytes: &[u8], cap: usize) -> Result<(usize, bool, Vec
     }
 }
 
+/// C15, first clause read literally ("EACH request for the next record returns ... without panicking"): a consumer that does NOT stop
+/// at the first error but asks again, up to `extra` more times after every error. Only panics are reported here (termination is
+/// promised only to consumers that stop at the first error).
+pub fn read_past_errors(fmt: &str, bytes: &[u8], cap: usize, extra: usize) -> Result<(), String> {
+    let limit = bytes.len() + 16;
+    let r = catch_unwind(AssertUnwindSafe(|| {
+        let rd = BufReader::with_capacity(cap.max(1), Cursor::new(bytes.to_vec()));
+        macro_rules! drive {
+            ($it:expr) => {{
+                let mut it = $it;
+                let mut steps = 0usize;
+                let mut errs = 0usize;
+                loop {
+                    steps += 1;
+                    if steps > limit { break; }
+                    match it.next() {
+                        None => break,
+                        Some(Err(_)) => { errs += 1; if errs > extra { break; } }
+                        Some(Ok(_)) => {}
+                    }
+                }
+            }};
+        }
+        match fmt {
+            "jaspar" => drive!(jaspar::read(rd)),
+            "jaspar16" => drive!(jaspar16::read::<_, Dna>(rd)),
+            "transfac" => drive!(transfac::read::<_, Dna>(rd)),
+            "uniprobe" => drive!(uniprobe::read::<_, Dna>(rd)),
+            "jaspar16p" => drive!(jaspar16::read::<_, Protein>(rd)),
+            "transfacp" => drive!(transfac::read::<_, Protein>(rd)),
+            "uniprobep" => drive!(uniprobe::read::<_, Protein>(rd)),
+            _ => {}
+        }
+    }));
+    match r {
+        Err(_) => Err(format!("panic on a request after an earlier error, at {}", crate::LAST_PANIC.lock().map(|g| g.clone()).unwrap_or_default())),
+        Ok(()) => Ok(()),
+    }
+}
+
 fn mat_u32(m: &lightmotif::dense::DenseMatrix<u32, <Dna as Alphabet>::K>) -> String {
     let mut s = String::new();
     for i in 0..m.rows() { for j in 0..5 { s.push_str(&format!("{},", m[i][j])); } s.push(';'); }
@@ -197,7 +237,7 @@ pub fn sweep_c15(tier: &str, seed: u64, only: &str) -> (usize, Vec<String>) {
     let mut failed_fmt = std::collections::HashSet::new();
     for fmt in FORMATS {
         if !only.is_empty() && !only.contains(fmt) { continue; }
-        let mut inputs: Vec<Vec<u8>> = vec![vec![], b"\n".to_vec(), b">".to_vec(), b">\n".to_vec(), b"X\n".to_vec(), b"//\n".to_vec(), vec![0xff, 0xfe], b"VV\n".to_vec()];
+        let mut inputs: Vec<Vec<u8>> = vec![vec![], b"\n".to_vec(), b">".to_vec(), b">\n".to_vec(), b"X\n".to_vec(), b"//\n".to_vec(), vec![0xff, 0xfe], b"VV\n".to_vec(), b">A x->y\n1 2\n1 2\n1 2\n1 2\n>B\n1 2\n1 2\n1 2\n1 2\n".to_vec(), b">A x->y\nA [ 1 ]\nzz\n".to_vec(), b">A x->y\nA [ 1 2 ]\nC [ 1 2 ]\nG [ 1 2 ]\nT [ 1 2 ]\n>B\nA [ 1 2 ]\nC [ 1 2 ]\nG [ 1 2 ]\nT [ 1 2 ]\n".to_vec()];
         let files = if tier == "thorough" { 6 } else { 2 };
         for _ in 0..files {
             let cnt = 1 + rng.below(2); let (text, _) = gen_file(fmt, &mut rng, cnt);
@@ -264,6 +304,11 @@ pub fn sweep_c15(tier: &str, seed: u64, only: &str) -> (usize, Vec<String>) {
             for cap in [1usize, 3, 8192] {
                 n += 1;
                 if let Err(e) = read_all(fmt, inp, cap) {
+                    if failed_fmt.insert(format!("{}:{}", fmt, e)) {
+                        fails.push(case_json(&format!("io_{}_reader", fmt), &e, fmt, inp, cap));
+                    }
+                }
+                if let Err(e) = read_past_errors(fmt, inp, cap, 6) {
                     if failed_fmt.insert(format!("{}:{}", fmt, e)) {
                         fails.push(case_json(&format!("io_{}_reader", fmt), &e, fmt, inp, cap));
                     }
@@ -344,5 +389,6 @@ pub fn sweep_c14(tier: &str, seed: u64, only: &str) -> (usize, Vec<String>) {
 pub fn replay(unit: &str, fmt: &str, hex: &str, cap: usize) -> Result<(), String> {
     let bytes: Vec<u8> = (0..hex.len() / 2).map(|i| u8::from_str_radix(&hex[2 * i..2 * i + 2], 16).unwrap()).collect();
     let _ = unit;
-    read_all(fmt, &bytes, cap).map(|_| ())
+    read_all(fmt, &bytes, cap).map(|_| ())?;
+    read_past_errors(fmt, &bytes, cap, 6)
 }
